@@ -329,7 +329,7 @@ func TestPropBytesLegacy(t *testing.T)  { ev.RunProp(t, "C04", bytesLegacy) }
 func TestPropStructLegacy(t *testing.T) { ev.RunProp(t, "C04", structLegacy) }
 func TestReplay(t *testing.T) {
 	r := bytesV5.Replayer()
-	ev.Replay(t, map[string]ev.Replayer{deepUnit.Name: deepUnit.Replayer(), tableUnit.Name: r, bytesV5.Name: r, structV5.Name: r, bytesLegacy.Name: r, structLegacy.Name: r, "fuzz-v5": r, "fuzz-legacy": r})
+	ev.Replay(t, map[string]ev.Replayer{deepUnit.Name: deepUnit.Replayer(), bigUnit.Name: bigUnit.Replayer(), tableUnit.Name: r, bytesV5.Name: r, structV5.Name: r, bytesLegacy.Name: r, structLegacy.Name: r, "fuzz-v5": r, "fuzz-legacy": r})
 }
 
 // ---------- deep nesting at the codec's limit ----------
@@ -585,4 +585,222 @@ func TestTable(t *testing.T) {
 		}
 	}
 	ev.RunCases(t, "C04", tableUnit, mine)
+}
+
+// ---------- big inputs: thousands of elements, members and operations ----------
+
+// BigCase: one entry point on one big generated input. Nothing here is near
+// the watchdog on the unchanged tree (the slowest case takes a few seconds);
+// an accidental quadratic-to-cubic step or a per-element allocation blow-up
+// in a loop over elements, members or operations shows as a nominated hang.
+type BigCase struct {
+	Pkg   string `json:"package"`
+	Shape string `json:"shape"` // array, object, string, matrix
+	N     int    `json:"n"`
+	Call  string `json:"call"`
+}
+
+func bigDoc(shape string, n int) []byte {
+	var sb strings.Builder
+	switch shape {
+	case "array":
+		sb.WriteByte('[')
+		for i := 0; i < n; i++ {
+			if i > 0 {
+				sb.WriteByte(',')
+			}
+			fmt.Fprintf(&sb, "%d", i)
+		}
+		sb.WriteByte(']')
+	case "object":
+		sb.WriteByte('{')
+		for i := 0; i < n; i++ {
+			if i > 0 {
+				sb.WriteByte(',')
+			}
+			fmt.Fprintf(&sb, `"k%d":{"v":%d,"s":"x<y"}`, i, i)
+		}
+		sb.WriteByte('}')
+	case "string":
+		sb.WriteString(`{"s":"`)
+		for i := 0; i < n; i++ {
+			sb.WriteString("abcdefgh<&>\\n\\u00e9 ")
+		}
+		sb.WriteString(`","t":[1]}`)
+	case "matrix":
+		sb.WriteByte('[')
+		for i := 0; i < n/50; i++ {
+			if i > 0 {
+				sb.WriteByte(',')
+			}
+			sb.WriteByte('[')
+			for j := 0; j < 50; j++ {
+				if j > 0 {
+					sb.WriteByte(',')
+				}
+				fmt.Fprintf(&sb, `{"i":%d,"j":%d}`, i, j)
+			}
+			sb.WriteByte(']')
+		}
+		sb.WriteByte(']')
+	}
+	return []byte(sb.String())
+}
+
+func bigPatch(shape, call string, n int) []byte {
+	var sb strings.Builder
+	sb.WriteByte('[')
+	m := n
+	if m > 3000 {
+		m = 3000
+	}
+	for i := 0; i < m; i++ {
+		if i > 0 {
+			sb.WriteByte(',')
+		}
+		switch call {
+		case "append":
+			if shape == "object" {
+				fmt.Fprintf(&sb, `{"op":"add","path":"/n%d","value":%d}`, i, i)
+			} else {
+				fmt.Fprintf(&sb, `{"op":"add","path":"/-","value":%d}`, i)
+			}
+		case "remove-front":
+			if shape == "object" {
+				fmt.Fprintf(&sb, `{"op":"remove","path":"/k%d"}`, i)
+			} else {
+				sb.WriteString(`{"op":"remove","path":"/0"}`)
+			}
+		case "move":
+			if shape == "object" {
+				fmt.Fprintf(&sb, `{"op":"move","from":"/k%d","path":"/m%d"}`, i, i)
+			} else {
+				sb.WriteString(`{"op":"move","from":"/0","path":"/-"}`)
+			}
+		case "copy-test":
+			if shape == "object" {
+				fmt.Fprintf(&sb, `{"op":"copy","from":"/k%d","path":"/c%d"},{"op":"test","path":"/c%d/v","value":%d}`, i, i, i, i)
+			} else {
+				fmt.Fprintf(&sb, `{"op":"copy","from":"/%d","path":"/0"},{"op":"test","path":"/0","value":%d}`, i+1, i)
+			}
+		}
+	}
+	sb.WriteByte(']')
+	return []byte(sb.String())
+}
+
+var bigCalls = []string{"append", "remove-front", "move", "copy-test", "apply-empty-indent", "test-root", "Equal", "MergePatch", "MergeMergePatches", "CreateMergePatch"}
+
+func checkBig(c BigCase) ev.Verdict {
+	if c.N < 1 || c.N > 200000 {
+		return ev.Excluded("size outside the unit")
+	}
+	doc := bigDoc(c.Shape, c.N)
+	if len(doc) == 0 {
+		return ev.Excluded("unknown shape")
+	}
+	v5 := c.Pkg == "v5"
+	apply := func(patch []byte, indent string) {
+		if v5 {
+			if p, err := jp.DecodePatch(patch); err == nil {
+				p.ApplyIndent(doc, indent)
+			}
+		} else if p, err := jl.DecodePatch(patch); err == nil {
+			p.ApplyIndent(doc, indent)
+		}
+	}
+	var f func()
+	switch c.Call {
+	case "append", "remove-front", "move", "copy-test":
+		if (c.Shape == "string" || c.Shape == "matrix") && c.Call != "append" {
+			return ev.Excluded("call not defined for this shape")
+		}
+		patch := bigPatch(c.Shape, c.Call, c.N)
+		if c.Shape == "string" {
+			patch = []byte(`[{"op":"copy","from":"/s","path":"/t/0"},{"op":"test","path":"/t/0","value":"x"}]`)
+		}
+		f = func() { apply(patch, "") }
+	case "apply-empty-indent":
+		f = func() { apply([]byte(`[]`), "\t") }
+	case "test-root":
+		patch := []byte(`[{"op":"test","path":"","value":` + string(doc) + `}]`)
+		f = func() { apply(patch, "") }
+	case "Equal":
+		other := append([]byte(" "), doc...)
+		f = func() {
+			if v5 {
+				jp.Equal(doc, other)
+			} else {
+				jl.Equal(doc, other)
+			}
+		}
+	case "MergePatch", "MergeMergePatches":
+		f = func() {
+			switch {
+			case v5 && c.Call == "MergePatch":
+				jp.MergePatch(doc, doc)
+			case v5:
+				jp.MergeMergePatches(doc, doc)
+			case c.Call == "MergePatch":
+				jl.MergePatch(doc, doc)
+			default:
+				jl.MergeMergePatches(doc, doc)
+			}
+		}
+	case "CreateMergePatch":
+		other := bigDoc(c.Shape, c.N-1)
+		if c.Shape != "object" {
+			other = doc
+		}
+		f = func() {
+			if v5 {
+				jp.CreateMergePatch(doc, other)
+			} else {
+				jl.CreateMergePatch(doc, other)
+			}
+		}
+	default:
+		return ev.Excluded("unknown call")
+	}
+	v := ev.Verdict{Classes: []string{c.Pkg, c.Shape, c.Call, fmt.Sprintf("n=%d", c.N)}, NonTrivial: true}
+	if pn := ev.Safe(f); pn != nil {
+		v.Err = fmt.Errorf("%s %s on a big %s (n=%d): %w", c.Pkg, c.Call, c.Shape, c.N, pn)
+	}
+	return v
+}
+
+var bigUnit = ev.Unit[BigCase]{
+	Name:  "big-inputs",
+	Rule:  "each entry point, v5 and legacy, on big generated inputs: an array of n numbers, an object of n members, a string of 20n bytes, an n/50 x 50 matrix of objects (n = 2 000 quick, also 20 000 thorough) with patches of up to 3 000 operations (appends, removes at the front, moves, copy+test), the empty patch with indentation, a test of the root against the document itself, Equal against a re-spelling, MergePatch / MergeMergePatches of the document with itself, CreateMergePatch against a near copy; oracle: returns without panic and well inside the watchdog (a nominated hang is confirmed under a CPU-time limit); every case non-trivial; the list is enumerated completely",
+	Check: checkBig, Guard: true,
+}
+
+func bigCases(tier string) []BigCase {
+	sizes := []int{2000}
+	if tier == "thorough" {
+		sizes = []int{2000, 20000}
+	}
+	var out []BigCase
+	for _, pkg := range []string{"v5", "legacy"} {
+		for _, shape := range []string{"array", "object", "string", "matrix"} {
+			for _, call := range bigCalls {
+				for _, n := range sizes {
+					out = append(out, BigCase{pkg, shape, n, call})
+				}
+			}
+		}
+	}
+	return out
+}
+
+func TestBig(t *testing.T) {
+	all := bigCases(os.Getenv("VERIF_TIER"))
+	k, n := ev.Shard()
+	var mine []BigCase
+	for i, c := range all {
+		if i%n == k {
+			mine = append(mine, c)
+		}
+	}
+	ev.RunCases(t, "C04", bigUnit, mine)
 }
